@@ -37,7 +37,8 @@ EXTENDS Naturals, Sequences, FiniteSets, TLC, FormDocCombos
 CONSTANTS Scope,    \* 0 = quick domains, 1 = larger domains (thorough)
           Defects   \* the open findings of known_findings/C16.json that the reference reader mirrors
                     \* ("F1": a HashMap in an attribute is not readable from a model value;
-                    \*  "F12": a Duration as #[form(body)] is not readable)
+                    \*  "F12": a Duration as #[form(body)] is not readable; "F14": an absent optional #[form(body)];
+                    \*  "F16": an extant Value header body next to header slots)
 
 (***************************************************************************)
 (* 1. Abstract model values                                                *)
@@ -389,7 +390,8 @@ RenderStruct(tag, fields, xs) ==
         \* (an absent optional attribute field is written, with an empty body)
         as      == idx("attr")
         attrs   == <<Attr(tagName, tagBody)>> \o [j \in 1..Len(as) |-> Attr(live[as[j]].name, val(as[j]))]
-        ss      == SelectSeq(idx("slot"), LAMBDA i : ~IsNone(live[i].ty, xs[i]))
+        \* (only labelled slots are omitted when absent; a positional item is written as extant)
+        ss      == SelectSeq(idx("slot"), LAMBDA i : live[i].name = "" \/ ~IsNone(live[i].ty, xs[i]))
         items   == [j \in 1..Len(ss) |-> IF live[ss[j]].name = "" THEN Item(val(ss[j]))
                                           ELSE Slot(Txt(live[ss[j]].name), val(ss[j]))]
     IN  IF hasBody
@@ -529,9 +531,15 @@ ReadHeader(hbF, hsF, hv) ==
         recForm ==
             IF IsRec(hv) /\ hv.attrs = <<>> THEN
                LET its   == hv.items
-                   first == hbF # <<>> /\ its # <<>> /\ ~its[1].slot
+                   \* HeaderRecognizer (ExpectingBody) feeds the FIRST item to the header body recognizer whatever it is: an
+                   \* absent body is only recognisable by the extant placeholder the writer puts there; a slot in first
+                   \* position is not a body
+                   first == hbF # <<>> /\ its # <<>>
+                   \* (finding F16: a model value as header body next to header slots is not readable from the model)
                    hbr   == IF hbF = <<>> THEN <<>>
-                            ELSE IF first THEN <<Read(hbF[1].ty, its[1].v)>> ELSE <<Absent(hbF[1])>>
+                            ELSE IF hbF[1].ty = VAL /\ hsF # <<>> /\ "F16" \in Defects THEN <<Fail>>
+                            ELSE IF first THEN (IF its[1].slot THEN <<Fail>> ELSE <<Read(hbF[1].ty, its[1].v)>>)
+                            ELSE <<Absent(hbF[1])>>
                    rest  == IF first THEN Tail(its) ELSE its
                    names == [i \in 1..Len(hsF) |-> hsF[i].name]
                    known == \A i \in 1..Len(rest) : rest[i].slot /\ rest[i].key.k = "t" /\ rest[i].key.s \in Range(names)
@@ -547,14 +555,27 @@ ReadHeader(hbF, hsF, hv) ==
                    LET r == ReadAttrBody(hbF[1].ty, hv) IN
                    IF r.ok THEN [ok |-> TRUE, hb |-> <<r.x>>, hs |-> Xs(absentAll)] ELSE Fail
                 ELSE Fail
+        \* C: a header body and slots, but the tag body is a single value (not a record): the body, all slots absent
+        single == IF hbF # <<>> /\ ~(IsRec(hv) /\ hv.attrs = <<>>) /\ AllOk(absentAll) THEN
+                     LET r == Read(hbF[1].ty, hv) IN
+                     IF r.ok THEN [ok |-> TRUE, hb |-> <<r.x>>, hs |-> Xs(absentAll)] ELSE Fail
+                  ELSE Fail
     IN  IF noHdr THEN (IF hv = Extant THEN [ok |-> TRUE, hb |-> <<>>, hs |-> <<>>] ELSE Fail)
-        ELSE IF hbF # <<>> /\ hsF = <<>> THEN flat ELSE recForm
+        ELSE IF hbF # <<>> /\ hsF = <<>> THEN flat
+        ELSE IF recForm.ok THEN recForm ELSE single
 
 \* the body of a record delegated to a field of type t (DelegateStructRecognizer -> make_body_recognizer)
+RECURSIVE ReadBody(_, _, _)
 ReadBody(t, attrs, items) ==
-    IF IsSimple(t) \/ (t.c = "opt" /\ IsSimple(t.e)) THEN
-        IF attrs = <<>> /\ Len(items) = 1 /\ ~items[1].slot THEN Read(t, items[1].v)
-        ELSE IF t.c = "opt" /\ attrs = <<>> /\ items = <<>> THEN Ok(NoneI) ELSE Fail
+    IF t.c = "opt" THEN
+        \* FirstOf(EmptyBodyRecognizer, the body recognizer of the element): an empty body is None (also for an element
+        \* that is itself an empty collection: finding F15); the writer's rendering of None, a single extant item, is
+        \* not accepted by EmptyBodyRecognizer (finding F14)
+        IF attrs = <<>> /\ items = <<>> THEN Ok(NoneI)
+        ELSE IF attrs = <<>> /\ items = <<Item(Extant)>> THEN (IF "F14" \in Defects THEN Fail ELSE Ok(NoneI))
+        ELSE LET r == ReadBody(t.e, attrs, items) IN IF r.ok THEN Ok(SomeI(r.x)) ELSE Fail
+    ELSE IF IsSimple(t) THEN
+        IF attrs = <<>> /\ Len(items) = 1 /\ ~items[1].slot THEN Read(t, items[1].v) ELSE Fail
     ELSE IF t.c = "prim" /\ t.p = "value" THEN
         \* DelegateBodyMaterializer: a single value item is that value, an empty body is extant
         IF attrs = <<>> /\ Len(items) = 1 /\ ~items[1].slot THEN Ok(items[1].v)
@@ -593,7 +614,7 @@ ReadStruct(tag, fields, v) ==
         itemsOk == IF hasBody THEN TRUE
                    ELSE IF labelled
                    THEN \A i \in 1..Len(v.items) : v.items[i].slot /\ v.items[i].key.k = "t" /\ v.items[i].key.s \in slNames
-                   ELSE Len(v.items) = Len(slI) /\ \A i \in 1..Len(v.items) : ~v.items[i].slot
+                   ELSE Len(v.items) <= Len(slI) /\ \A i \in 1..Len(v.items) : ~v.items[i].slot
         occS(nm) == {i \in 1..Len(v.items) : v.items[i].key.s = nm}
         pos(i)  == CHOOSE j \in 1..Len(slI) : slI[j] = i
         slr(i)  == IF labelled
@@ -604,7 +625,7 @@ ReadStruct(tag, fields, v) ==
                                  last == CHOOSE j \in js : \A k \in js : k <= j
                              IN IF \A j \in js : Read(live[i].ty, v.items[j].v).ok
                                 THEN Read(live[i].ty, v.items[last].v) ELSE Fail
-                   ELSE Read(live[i].ty, v.items[pos(i)].v)
+                   ELSE IF pos(i) <= Len(v.items) THEN Read(live[i].ty, v.items[pos(i)].v) ELSE Absent(live[i])
         hpos(i, I) == CHOOSE j \in 1..Len(I) : I[j] = i
         res(i)  == CASE live[i].role = "tag"    -> Ok(Txt(a1.n))
                      [] live[i].role = "hbody"  -> Ok(hdr.hb[1])
